@@ -89,6 +89,7 @@ pub fn op_u_poll<F: FutFl>(slot: usize, ux: usize, task: usize) {
 //   KIND 8: two streams, the ring is full because of stream 1 only and the sink task is already
 //           parked; the last handle of stream 1 is dropped (outer) while the executor re-polls the
 //           sink task as soon as it has been notified
+//   KIND 9: like 1 but on a fresh, never-wrapped queue (C15 names this case explicitly)
 //   actor 0 = the task that may park (outer), actor 1 (2) = the other side
 
 pub struct Park<F, const KIND: u8>(PhantomData<F>);
@@ -106,9 +107,9 @@ impl<F: FutFl, const KIND: u8> Prog for Park<F, KIND> {
                 kani::assume(woken_since_last_call(TASK_TX));
                 op_start_send::<F>(4, 0, 2, TASK_TX)
             }
-            (1, 0) | (4, 0) | (6, 0) => op_poll::<F>(0, 0, TASK_RX),
+            (1, 0) | (4, 0) | (6, 0) | (9, 0) => op_poll::<F>(0, 0, TASK_RX),
             (2, 0) | (3, 0) | (5, 0) | (7, 0) => op_start_send::<F>(0, 0, 1, TASK_TX),
-            (1, _) => op_start_send::<F>(4, 0, 1, TASK_TX),
+            (1, _) | (9, _) => op_start_send::<F>(4, 0, 1, TASK_TX),
             (2, _) => op_poll::<F>(4, 0, TASK_RX),
             (3, _) => op_recv::<F>(4, 0),
             (4, _) => op_drop_tx::<F>(4, 0),
@@ -148,6 +149,23 @@ pub fn parked<F: FutFl, const KIND: u8, const OUTER: usize>(cap: u64, n: u8, bud
         }
         ledger::declare_send(0, 0, 1);
     } else {
+        // lap the ring once first: on a never-written slot the wait condition is immediately true,
+        // so a poll on a fresh queue never parks (that case is KIND 9, see below)
+        if KIND != 9 {
+            let mut i = 0;
+            while i < n {
+                let ss = PRE_SEND_SLOT0 + i as usize;
+                let rs = crate::finish::PRE_RECV_SLOT0 + i as usize;
+                ledger::declare_send(ss, 8, 5 + i);
+                ledger::declare_recv(rs, 8, 0);
+                op_send::<F>(ss, 0, 5 + i);
+                op_recv::<F>(rs, 0);
+                if KIND == 6 {
+                    // both handles share the stream: nothing more to consume
+                }
+                i += 1;
+            }
+        }
         ledger::declare_recv(0, 0, 0);
     }
     if KIND == 7 {
@@ -158,7 +176,7 @@ pub fn parked<F: FutFl, const KIND: u8, const OUTER: usize>(cap: u64, n: u8, bud
         }
     }
     match KIND {
-        1 => ledger::declare_send(4, 1, 1),
+        1 | 9 => ledger::declare_send(4, 1, 1),
         2 | 3 | 7 => ledger::declare_recv(4, 1, 0),
         4 | 5 => ledger::declare_other(4, 1),
         _ => {
@@ -430,6 +448,7 @@ park!(c14_mp_send_vs_droprx, hk_c14_mp_send_vs_droprx, MpF00, 5, 0, 1, 1, 1);
 park!(c14_bc_two_polls, hk_c14_bc_two_polls, BcF00, 6, 0, 2, 2, 3);
 park!(c14_bc_send_vs_upoll, hk_c14_bc_send_vs_upoll, BcF00, 7, 0, 1, 1, 1);
 park!(c14_bc_drop_stream_repoll, hk_c14_bc_drop_stream_repoll, BcF00, 8, 0, 1, 1, 1);
+park!(c15_bc_fresh_poll, hk_c15_bc_fresh_poll, BcF00, 9, 0, 2, 2, 1);
 park!(c14_bc10_poll_vs_send, hk_c14_bc10_poll_vs_send, BcF10, 1, 0, 2, 2, 1);
 park!(c14_mp11_send_vs_poll, hk_c14_mp11_send_vs_poll, MpF11, 2, 0, 1, 1, 1);
 
